@@ -3,7 +3,7 @@ from harness import common as C
 from harness import l2
 
 FILES = ["Engine/Toposort.v", "Engine/ToposortProof.v", "Engine/Tagged.v", "Engine/Tower.v", "Engine/Run08.v",
-         "Engine/TaggedProof.v", "Props/C20.v"]
+         "Engine/TaggedProof.v", "Engine/RenameProof.v", "Engine/RenameEval.v", "Props/C20.v"]
 RULE = ("thread A runs a nested-differentiation program (the witness d/dx[x d/dy(x y^2)] and random ones), threads B "
         "run their own (nested) differentiations; a controlled scheduler (Event hand-offs at hooks placed immediately "
         "around every trace entry and exit) realises every placement of B's events among A's events for short "
@@ -60,9 +60,9 @@ def replay(rp):
     return 1
 
 
-TECHNIQUE = "Coq: interference-script model of the shared trace counter; refutation theorem for the shared depth counter (witness schedule, replayed on the implementation), freshness theorem for an increasing supply under all interference; controlled-scheduler correspondence"
+TECHNIQUE = "Coq: interference-script model of the shared trace counter; refutation theorem for the shared depth counter (witness schedule, replayed on the implementation), non-interference theorem for the increasing supply /repo implements (all programs, all non-negative interference scripts) via invariance of the evaluator under increasing renamings of trace ids; controlled-scheduler correspondence"
 DESIGN_REF = "DESIGN.md 4.20"
 LEVEL_TEXT = ("Proved: the shared depth counter admits an interfering schedule (concrete witness); with a strictly increasing "
-              "supply every trace id is globally fresh under all schedules. The step from fresh ids to solo results for all "
-              "programs is tied by exhaustive/randomised controlled-schedule correspondence (partial).")
+              "supply (what /repo implements) every program observes its solo result under every interference script (theorem). "
+              "Tie: exhaustive/randomised controlled-schedule correspondence at hook granularity.")
 LEVEL_NOTE = "Trusted: Coq kernel; model tied by correspondence; interleavings below the hook granularity are not explored."
